@@ -477,6 +477,103 @@ def rule_consumed(ctx, bs):
         ctx.anchor_missing(rid, NEW)
 
 
+AUX = "jxl_oxide::aux_box::AuxBoxList"
+
+
+def first_calls(f, start, names, limit=300):
+    """callee short names (among `names`) reachable from block `start` before a return"""
+    out = set()
+    seen = set()
+    work = [start]
+    while work:
+        b = work.pop()
+        if b in seen or len(seen) > limit:
+            continue
+        seen.add(b)
+        t = f.term(b)
+        if t[0] == "call":
+            c = callee(t)
+            if c:
+                short = c["fn"].split("::")[-1]
+                full = c["fn"]
+                for n in names:
+                    if full.endswith(n):
+                        out.add(n)
+        work.extend(f.succs(b))
+    return out
+
+
+def rule_auxbox(ctx):
+    rid = "R-AUXBOX"
+    ctx.rule(rid, "auxiliary-box delivery, structural part: AuxBoxList::handle_event routes every ParseEvent variant to its handler "
+                  "(AuxBoxStart -> ensure_raw|ensure_brotli, AuxBoxData -> feed_data|Jbrd::feed_bytes, AuxBoxEnd -> finalize); "
+                  "AuxBoxList::eof reaches finalize on every path (the parser emits AuxBoxEnd lazily, so the last sized box of a file is "
+                  "only closed by eof); finalize pushes the finished box into the list; the image-level finalisers call eof")
+    ox = ctx.prog.crate("jxl_oxide")
+    he = ox.fn(AUX + "::handle_event")
+    eof = ox.fn(AUX + "::eof")
+    fin = ox.fn(AUX + "::finalize")
+    pe = ctx.prog.crate("jxl_bitstream").adts.get("jxl_bitstream::container::parse::ParseEvent")
+    if he is None or eof is None or fin is None or pe is None:
+        ctx.anchor_missing(rid, "AuxBoxList::{handle_event,eof,finalize} / ParseEvent")
+        return
+    for f in (he, eof, fin):
+        ctx.seen(f)
+    variants = [v["name"] for v in pe["variants"]]
+    defs = Defs(he)
+    sw = None
+    for b in range(len(he.blocks)):
+        sub = switch_subject(he, defs, b)
+        if sub and sub[0] == "discr" and he.local_ty(sub[1][0]).endswith("ParseEvent<'_>") or (sub and sub[0] == "discr" and "ParseEvent" in he.local_ty(sub[1][0])):
+            sw = b
+            break
+    if sw is None:
+        ctx.bad(rid, "handle_event|no-switch", "handle_event does not switch on the ParseEvent variant", fn=he)
+    else:
+        t = he.term(sw)
+        listed = {int(v): x for v, x in t[2]}
+        want = {
+            "AuxBoxStart": ({"::ensure_raw", "::ensure_brotli"}, "any"),
+            "AuxBoxData": ({"AuxBoxReader::feed_data", "Jbrd::feed_bytes"}, "all"),
+            "AuxBoxEnd": ({"AuxBoxList::finalize"}, "all"),
+        }
+        for i, vn in enumerate(variants):
+            if vn not in want:
+                continue
+            names, mode = want[vn]
+            got = first_calls(he, listed.get(i, t[3]), names)
+            ok = (got == names) if mode == "all" else bool(got)
+            if ok:
+                ctx.ok(rid, "handle_event|%s" % vn, "%s -> %s" % (vn, sorted(got)), nontrivial=True, fn=he)
+            else:
+                ctx.bad(rid, "handle_event|%s-not-handled" % vn, "ParseEvent::%s no longer reaches %s in AuxBoxList::handle_event (reaches %s): box payloads are "
+                        "dropped or boxes never closed" % (vn, sorted(names), sorted(got)), fn=he, pos=he.term_pos(sw))
+    # eof -> finalize on every path
+    fb = {b for b, tt in eof.calls() if callee(tt) and callee(tt)["fn"] == AUX + "::finalize"}
+    p = find_path_edges(eof, [0], lambda x: eof.term(x)[0] == "ret", avoid_block=lambda x: x in fb) if 0 not in fb else None
+    if fb and p is None:
+        ctx.ok(rid, "eof|finalizes", "every path through eof() calls finalize()", nontrivial=True, fn=eof)
+    else:
+        ctx.bad(rid, "eof|exit-without-finalize", "AuxBoxList::eof can return without finalize(): a sized auxiliary box that ends exactly at the end of "
+                "the input (AuxBoxEnd is emitted lazily) is never delivered", fn=eof, path=p)
+    # finalize pushes the finished box
+    fdefs = Defs(fin)
+    pushes = [b for b, tt in fin.calls() if callee(tt) and callee(tt)["fn"] == "alloc::vec::Vec::<T, A>::push"]
+    inner = [b for b, tt in fin.calls() if callee(tt) and callee(tt)["fn"].endswith("AuxBoxReader::finalize")]
+    jb = [b for b, tt in fin.calls() if callee(tt) and callee(tt)["fn"].endswith("Jbrd::finalize")]
+    if pushes and inner and jb and all(any(p2 in fin.reachable(i) for p2 in pushes) for i in inner):
+        ctx.ok(rid, "finalize|delivers", "current_box.finalize() then boxes.push(..); jbrd.finalize() for jbrd", nontrivial=True, fn=fin)
+    else:
+        ctx.bad(rid, "finalize|box-not-delivered", "AuxBoxList::finalize no longer finalises and pushes the finished box (push %d, reader finalize %d, jbrd finalize %d)"
+                % (len(pushes), len(inner), len(jb)), fn=fin)
+    # callers of eof
+    callers = [f.path for f in ox.fn_list for _, tt in f.calls() if callee(tt) and callee(tt)["fn"] == AUX + "::eof"]
+    if callers:
+        ctx.ok(rid, "eof|called", "eof() is called by %s" % sorted(set(callers)), fn=eof)
+    else:
+        ctx.bad(rid, "eof|never-called", "nobody calls AuxBoxList::eof any more", fn=eof)
+
+
 def main(pid, tier, repo=None):
     ctx = Ctx(pid, tier, configs=("workspace",), repo=repo)
     bs = ctx.prog.crate("jxl_bitstream")
@@ -484,6 +581,7 @@ def main(pid, tier, repo=None):
     rule_boxsize(ctx, bs)
     rule_boxhdr(ctx, bs)
     rule_consumed(ctx, bs)
+    rule_auxbox(ctx)
     ctx.not_decided("byte-exact reassembly and payload delivery (value-level); Brotli decompression")
     return ctx.finish(
         "The rejection clause and the size arithmetic of the container parser, decided on MIR for all layouts and chunkings: the "
